@@ -8,11 +8,10 @@ rm -rf /tmp/muteval/$name; mkdir -p /tmp/muteval/$name $out
 git -C /repo worktree prune
 git -C /repo worktree add --detach $wt HEAD >/dev/null 2>&1 || exit 2
 (cd $wt && git apply $patch) || { echo "PATCH DOES NOT APPLY"; git -C /repo worktree remove --force $wt; exit 1; }
-rsync -a --exclude target /verif/sim/ $sim/
-sed -i "s#/repo/src/lib.rs#$wt/src/lib.rs#" $sim/fir/Cargo.toml
+rsync -a --exclude target --exclude srcshim /verif/sim/ $sim/
 for p in "$@"; do
   echo "=== $name: $p"
-  VERIF_SIM_DIR=$sim VERIF_OUT_DIR=$out VERIF_SCALE=${VERIF_SCALE:-1} /verif/check $p ${TIER:-quick} 2>&1 | grep -v "^build" | tail -8
+  VERIF_REPO_SRC=$wt/src VERIF_SIM_DIR=$sim VERIF_OUT_DIR=$out VERIF_SCALE=${VERIF_SCALE:-1} /verif/check $p ${TIER:-quick} 2>&1 | grep -v "^build" | tail -8
   echo "exit=$?"
 done
 git -C /repo worktree remove --force $wt
